@@ -164,3 +164,35 @@ package mocktikv
 //@   opaque-callee Get reverse NewMvccKey
 //@   at return assert reported: err != nil || len(val) != 0 ==> len(helper.pairs) == old(len(helper.pairs)) + 1 && helper.pairs[len(helper.pairs)-1].Err == err
 //@   at call(Get) assert asked: arg_ts == helper.startTS && arg_isoLevel == helper.isoLevel
+
+// A heart-beat only ever raises the time-to-live of the transaction's own primary lock: the lock must be the transaction's
+// and its own primary; the answer is max(current, advised), and the lock is rewritten (one record, handed to the
+// database) exactly when the advised value is larger.
+//@ func (*MVCCLevelDB) TxnHeartBeat
+//@   prop C12
+//@   may-panic
+//@   opaque-callee newIterator Release Valid mvccEncode MarshalBinary getDB
+//@   at return assert raised: result1 == nil ==> ok && dec.lock.startTS == startTS && result0 >= adviseTTL && result0 >= dec.lock.ttl && (result0 == adviseTTL || result0 == dec.lock.ttl)
+//@   at call(Write) assert rewrite: adviseTTL > dec.lock.ttl && arg_batch == batch && batch.n == 1
+
+// Resolving a transaction's locks in a range commits each of ITS locks at the given commit timestamp, or rolls each back
+// when that is zero - other transactions' locks are not touched - and hands the batch to the database.
+//@ func (*MVCCLevelDB) ResolveLock
+//@   prop C12
+//@   may-panic
+//@   opaque-callee newScanIterator Release Valid getDB
+//@   loop 1 invariant l1: true
+//@   at call(commitLock) assert own: dec.lock.startTS == startTS && commitTS > 0 && arg_startTS == startTS && arg_commitTS == commitTS && arg_batch == batch && arg_key == currKey
+//@   at call(rollbackLock) assert ownrb: dec.lock.startTS == startTS && commitTS == 0 && arg_startTS == startTS && arg_batch == batch && arg_key == currKey
+//@   at return assert persisted: result == nil ==> batch.written
+
+// Batch resolution: each lock whose transaction is named in the request is committed at the timestamp given for THAT
+// transaction, or rolled back when that is zero; locks of transactions not named are not touched.
+//@ func (*MVCCLevelDB) BatchResolveLock
+//@   prop C12
+//@   may-panic
+//@   opaque-callee newScanIterator Release Valid getDB
+//@   loop 1 invariant l1: true
+//@   at call(commitLock) assert own: inDom(txnInfos, dec.lock.startTS) && arg_commitTS == txnInfos[dec.lock.startTS] && arg_commitTS > 0 && arg_startTS == dec.lock.startTS && arg_batch == batch && arg_key == currKey
+//@   at call(rollbackLock) assert ownrb: inDom(txnInfos, dec.lock.startTS) && txnInfos[dec.lock.startTS] == 0 && arg_startTS == dec.lock.startTS && arg_batch == batch && arg_key == currKey
+//@   at return assert persisted: result == nil ==> batch.written
